@@ -256,3 +256,52 @@ def iterhashantijoin(h):
             ctx.oblige('%s: only FieldSelectionError escapes (unknown key field), before any data row' % name,
                        z3.BoolVal(res.exc.kind == 'FieldSelectionError' and inloop is None), res.exc.origin or '')
     h.explore(body)
+
+
+def view_dispatch(clsname, gen, side, lookup_attr, keyattr, argnames):
+    """Hash*JoinView.__iter__: which lookup the generator is handed, and when it is (re)built (C07 cache clause, C01)."""
+    @vc('C07.%s.dispatch' % clsname, functions=[HJ + clsname + '.__iter__', HJ + clsname + '.__init__'], props=['C07', 'C01'],
+        assumptions=['generator functions are lazy (arguments are bound at the call, nothing runs); lookup() through its contract (C07.lookup)'])
+    def task(h):
+        for have in (False, True):
+            def body(ctx, have=have):
+                it = h.interp(ctx)
+                calls = []
+
+                def lookup_summary(interp, args, kw, node):
+                    lk = Opaque('lookup', 'fresh-lookup-%d' % len(calls))
+                    calls.append((args, kw, lk))
+                    return lk
+                it.summaries['petl.util.lookups.lookup'] = lookup_summary
+                L, R = sym_table(ctx, 'L', nmin=1), sym_table(ctx, 'R', nmin=1)
+                cache = sym_bool('cache')
+                cls = closure_of(it, HJ + clsname)
+                view = it.call(cls, [L, R, 'lk', 'rk'], {'cache': cache})
+                ctx.oblige('%s(): constructing the view builds no lookup and reads nothing' % clsname,
+                           z3.BoolVal(not calls and view.attrs[lookup_attr] is None))
+                cached = Opaque('lookup', 'cached-lookup')
+                if have:
+                    view.attrs[lookup_attr] = cached
+                g = it.call(cls.find('__iter__')[0], [view], {})
+                c = ctx.branch(cache.t, 'cache on')
+                a = g.env.vars if isinstance(g, bi.GenObj) else {}
+                okgen = isinstance(g, bi.GenObj) and g.fn.qualname == HJ + gen
+                tbl = view.attrs[side]
+                if c and have:
+                    ok = okgen and not calls and a.get(argnames['lookup']) is cached
+                    what = 'cache on and a lookup is cached: it is reused, not rebuilt'
+                else:
+                    ok = okgen and len(calls) == 1 and list(calls[0][0]) == [tbl, view.attrs[keyattr]] and not calls[0][1] \
+                        and a.get(argnames['lookup']) is calls[0][2] and view.attrs[lookup_attr] is calls[0][2]
+                    what = 'no cached lookup, or cache off: ONE lookup is built from the %s table on its own key; the generator gets exactly that one' % side
+                ctx.oblige('%s.__iter__: %s' % (clsname, what), z3.BoolVal(bool(ok)))
+                ok2 = okgen and a.get('left') is view.attrs['left'] and a.get('right') is view.attrs['right'] and a.get('lkey') == 'lk' and a.get('rkey') == 'rk' \
+                    and a.get('lprefix') is None and a.get('rprefix') is None
+                ctx.oblige('%s.__iter__: the generator gets the squared-up tables, both keys and the prefixes of the view' % clsname, z3.BoolVal(bool(ok2)))
+            h.explore(body)
+    return task
+
+
+view_dispatch('HashJoinView', 'iterhashjoin', 'right', 'rlookup', 'rkey', {'lookup': 'rlookup'})
+view_dispatch('HashLeftJoinView', 'iterhashleftjoin', 'right', 'rlookup', 'rkey', {'lookup': 'rlookup'})
+view_dispatch('HashRightJoinView', 'iterhashrightjoin', 'left', 'llookup', 'lkey', {'lookup': 'llookup'})
